@@ -97,13 +97,13 @@ fn iter_any<const N: usize>(assume_well_formed: bool) {
 // ---- pending: suspected genuine defect #4 (nothing validates First ACK Range / Gap / Range) -----
 #[kani::proof]
 #[kani::unwind(5)]
-fn c04_ackiter_any_fields_r0() {
+fn c04_p_ackiter_any_fields_r0() {
     iter_any::<0>(false);
 }
 
 #[kani::proof]
 #[kani::unwind(5)]
-fn c04_ackiter_any_fields_r1() {
+fn c04_p_ackiter_any_fields_r1() {
     iter_any::<1>(false);
 }
 
@@ -155,7 +155,7 @@ fn c04_ackparse_accepts_illformed() {
 
 /// A well-formed frame of 18 bytes acknowledging 2^62 packet numbers (Largest = First ACK Range =
 /// 2^62-1) is accepted by the parser; its ghost cost is 2^62 (c04_ackiter_wellformed_r0's bound
-/// `largest + 1` is tight). It is the input of the pending harness c04_rcvd_on_ack_work_bounded.
+/// `largest + 1` is tight). It is the input of the pending harness c04_p_rcvd_on_ack_work_bounded.
 #[kani::proof]
 #[kani::unwind(10)]
 fn c04_ackparse_accepts_max_cumulative() {
@@ -174,7 +174,7 @@ fn c04_ackparse_accepts_max_cumulative() {
 /// Release build: wraps to right = 2^64-2, left = right - (2^62-1): one "range" of 2^62 numbers.
 #[kani::proof]
 #[kani::unwind(10)]
-fn c04_ackiter_wire_gap_underflow() {
+fn c04_p_ackiter_wire_gap_underflow() {
     let bytes: [u8; 13] = [0x00, 0x00, 0x01, 0x00, 0x00, 0xff, 0xff, 0xff, 0xff, 0xff, 0xff, 0xff, 0xff];
     let (rest, f) = ack_frame_with_ecn(Ecn::None)(&bytes[..]).unwrap();
     assert!(rest.is_empty() && f.largest() == 0 && f.ranges().len() == 1);
